@@ -768,6 +768,13 @@ example : (publicBuild exNested [1, 0] true).toOption.map (·.2.2) = some [1, 0]
 example : (publicBuild exLoop [1] true).toOption.map (·.2.2) = none := by decide
 example : (publicBuild exLoop [1, 0] false).toOption.map (·.2.2) = some [1, 0] := by decide
 
+/-- `MainClean` is satisfiable and discriminates: the Loop program is main-clean (its build is then
+    accepted by `validG`: `build_valid_mainClean_checked`), the sibling leak is not -/
+example : ∃ b tr, build exLoop = .ok (b, tr) ∧ Bridge.mainCleanB exLoop b = true := by
+  refine ⟨_, _, rfl, ?_⟩; decide
+example : ∃ b tr, build exNested = .ok (b, tr) ∧ Bridge.mainCleanB exNested b = true := by
+  refine ⟨_, _, rfl, ?_⟩; decide
+
 /-- sibling leak (design probe p4): the second Loop body uses the first body's argument 4. The
     Builder itself does not object (`build` succeeds, both bodies hang off the main graph); it is the
     structural rule of the final checker that rejects the emission. -/
@@ -779,6 +786,9 @@ def exSiblingLeak : Prog :=
     graphs := [⟨some [0, 1], [11]⟩, ⟨some [2, 3, 4], [3, 5]⟩, ⟨some [7, 8, 9], [8, 10]⟩] }
 
 example : ∃ b tr, build exSiblingLeak = .ok (b, tr) ∧ structOk exSiblingLeak tr [] = false := by
+  refine ⟨_, _, rfl, ?_⟩; decide
+
+example : ∃ b tr, build exSiblingLeak = .ok (b, tr) ∧ Bridge.mainCleanB exSiblingLeak b = false := by
   refine ⟨_, _, rfl, ?_⟩; decide
 
 /- Non-vacuity of `build_valid`: kernel evaluation of `Prog.validG` (a mutual definition over a nested
